@@ -192,11 +192,25 @@ pub fn record(run: &Arc<Run>, outcomes: &[Outcome]) {
 }
 
 pub fn explore_net(cfg: netmodel::NCfg, run: &Arc<Run>) -> Outcome {
+    explore_net_mode(cfg, run, false)
+}
+
+/// `dfs`: depth-first search (every state owns clones of the real Net and connections; DFS keeps
+/// far fewer alive at once - used for the large thorough configurations).
+pub fn explore_net_mode(cfg: netmodel::NCfg, run: &Arc<Run>, dfs: bool) -> Outcome {
     let t0 = Instant::now();
     let model = netmodel::NetM::new(cfg, run.clone());
     let before = run.num_violations();
     let limit = cfg_timeout();
-    let c = model.checker().threads(threads()).timeout(limit).spawn_bfs().join();
+    let builder = model.checker().threads(threads()).timeout(limit);
+    if dfs {
+        after_net(builder.spawn_dfs().join(), run, before, t0, limit)
+    } else {
+        after_net(builder.spawn_bfs().join(), run, before, t0, limit)
+    }
+}
+
+fn after_net<C: Checker<netmodel::NetM>>(c: C, run: &Arc<Run>, before: usize, t0: Instant, limit: std::time::Duration) -> Outcome {
     if t0.elapsed() >= limit {
         run.cap(&format!("configuration stopped by the {} s wall-time cap before the space was exhausted", limit.as_secs()));
     }
